@@ -32,7 +32,12 @@ def main():
     # Hard watchdog: a check that does not finish is a broken check (exit 2),
     # never a verdict.  Operations that can block are guarded individually in
     # the checks so that a blocking implementation is reported as a violation.
+    import faulthandler
     import signal
+    try:     # `kill -USR1 <pid>` dumps every thread's stack (debugging hangs)
+        faulthandler.register(signal.SIGUSR1, all_threads=True)
+    except (AttributeError, ValueError):
+        pass
     default = 7200 if os.environ['VERIF_TIER'] == 'thorough' else 900
     try:
         limit = int(os.environ.get('VERIF_TIMEOUT', default))
